@@ -21,8 +21,8 @@ RULE = ('Generated panels (1-6 geos quick / 1-7 thorough), all eligibility matri
         'returned >= 1 design and the feasible set has >= 2 members; distinct by input description.')
 ASSUMPTIONS = ['inputs on which either search raises are counted, not judged (C09)']
 EXHAUSTIVE = {'quick': False, 'thorough': False}
-MINIMA = {'quick': {'compared': 200, 'greedy_designs': 150, 'distinct_nontrivial': 80, 'referee_runs': 40},
-          'thorough': {'compared': 2500, 'greedy_designs': 2000, 'distinct_nontrivial': 1000, 'referee_runs': 500}}
+MINIMA = {'quick': {'near_bound_cases': 25, 'dyadic_compared': 30, 'compared': 200, 'greedy_designs': 150, 'distinct_nontrivial': 80, 'referee_runs': 40},
+          'thorough': {'near_bound_cases': 250, 'dyadic_compared': 300, 'compared': 2500, 'greedy_designs': 2000, 'distinct_nontrivial': 1000, 'referee_runs': 500}}
 N = {'quick': 400, 'thorough': 3600}
 CASE_TIMEOUT = {'quick': 300, 'thorough': 1200}
 
@@ -44,11 +44,42 @@ def run_case(spec):
   tier = spec['tier']
   G = r.randrange(1, 7 if tier == 'quick' else 8)
   focus = [None, 'size', 'ratio', 'volume', 'ngeos'][spec['idx'] % 5]
-  case = sl.make_case(r, g, G, focus=focus, allow=('size', 'ratio', 'volume', 'ngeos'))
+  dyadic = spec['idx'] % 6 == 5 and G >= 3
+  if dyadic:
+    # exact on-bound volume ratios: dyadic shares and a tolerance whose bound is attained exactly
+    case = sl.make_case(r, g, G, focus='volume', allow=('size', 'volume'), cls='dyadic', n_dates=r.choice([16, 32, 64]),
+                        elig_mode=r.choice(['none', 'mostly_ctx']), elig_extra='none')
+    case['params']['volume_ratio_tolerance'] = r.choice([1.0, 1.0, 0.5, 3.0, 2.0, 7.0])
+    case['params'].pop('n_pretest_max', None)
+    case['params']['n_test'] = min(case['params']['n_test'], len(case['panel']['dates']) - 4)
+  else:
+    case = sl.make_case(r, g, G, focus=focus, allow=('size', 'ratio', 'volume', 'ngeos'))
   truth = sl.Truth(case)
   desc = sl.describe(case, with_frame=False)
   counters = collections.Counter()
   violations = []
+  near = (not dyadic) and spec['idx'] % 6 == 4 and G >= 3
+  if near:
+    # place the volume / geo-count ratio bound a few ppm inside the value of a design the greedy search returns
+    # without that constraint: the design must disappear from BOTH searches alike
+    kw0 = {k: v for k, v in case['params'].items() if k not in ('volume_ratio_tolerance', 'geo_ratio_tolerance')}
+    probe = sl.run_search(dict(case, params=kw0), 'greedy')
+    if probe['outcome'].ok and probe['designs']:
+      nd = r.choice(probe['designs'])
+      eps = r.choice([3e-6, 1e-6, 1e-7])
+      if r.random() < 0.6:
+        v = truth.share_of(nd['c']) / truth.share_of(nd['t'])
+        big = max(v, 1 / v)
+        if big * (1 - eps) > 1.0:
+          kw0['volume_ratio_tolerance'] = big * (1 - eps) - 1.0
+      else:
+        big = max(len(nd['c']) / len(nd['t']), len(nd['t']) / len(nd['c']))
+        if big * (1 - eps) > 1.0:
+          kw0['geo_ratio_tolerance'] = big * (1 - eps) - 1.0
+      case = dict(case, params=kw0)
+      truth = sl.Truth(case)
+      desc = sl.describe(case, with_frame=False)
+      counters['near_bound_cases'] += 1
   grec = sl.run_search(case, 'greedy')
   full = dict(case, params=dict(case['params'], n_designs=100000))
   erec = sl.run_search(full, 'exhaustive')
@@ -60,6 +91,7 @@ def run_case(spec):
   v, info = sp.c13_clauses(case, truth, grec, erec, par)
   violations += v
   counters['compared'] += 1
+  counters['dyadic_compared'] += dyadic
   counters['greedy_designs'] += len(grec['designs'])
   counters['exhaustive_ranked'] += len(erec['designs'])
   if spec['idx'] % 3 == 0 and erec['admitted'] is not None and len(erec['admitted']) <= 7:
